@@ -34,3 +34,18 @@ Theorem C13_unique_given_monotone : forall (f : R -> R) (c a b : R),
   (forall x y, x < y -> f x < f y) -> f a = c -> f b = c -> a = b.
 Proof. exact LC13.crossing_unique. Qed.
 Print Assumptions C13_unique_given_monotone.
+
+(* quantitative form: where the fixed-bed excess gradient rises at least at the rate m per m/s (the same monotonicity
+   premise, with a rate), a successful search returns a speed within e/m of the one true crossing *)
+Theorem C13_exit_near_crossing : forall (Dp d eps nu rhol rhos Cvs : R) (n : nat) (e v m x : R),
+  0 < m ->
+  (forall a b, a < b -> m * (b - a) <= Stratified.fb_Erhg RN b Dp d eps nu rhol rhos Cvs - Stratified.fb_Erhg RN a Dp d eps nu rhol rhos Cvs) ->
+  Stratified.fb_Erhg RN x Dp d eps nu rhol rhos Cvs = Constants.musf RN ->
+  Stratified.vls_FBSB_full RN Dp d eps nu rhol rhos Cvs n e = (v, true) ->
+  Rabs (v - x) < e / m.
+Proof. exact LC13.exit_near_crossing. Qed.
+Print Assumptions C13_exit_near_crossing.
+
+Example C13_rate_premise_nonvacuous : exists (f : R -> R) (m : R), 0 < m /\ forall a b, a < b -> m * (b - a) <= f b - f a.
+Proof. exact LC13.rate_premise_nonvacuous. Qed.
+Print Assumptions C13_rate_premise_nonvacuous.
